@@ -106,4 +106,71 @@ theorem grad_through_matrix {K : Type} [CommRing K] (s : K) (A : Mat K m n) (r :
   unfold scicoGrad
   rw [conjVec_vsmul, conjVec_mulVec, conjMat_transpose]
 
+
+/-! ### distance to a set given by its projection `P` (`SetDistance`, `SquaredSetDistance`) -/
+
+theorem reBdot_vsub {K : Type} [CommRing K] (a b d : CVec K n) :
+    reBdot (vsub a b) d = reBdot a d - reBdot b d := by
+  rw [reBdot_eq, reBdot_eq, reBdot_eq, ← Finset.sum_sub_distrib]
+  exact Finset.sum_congr rfl (fun i _ => by simp [vsub]; ring)
+
+theorem reBdot_vsub_right {K : Type} [CommRing K] (c a b : CVec K n) :
+    reBdot c (vsub a b) = reBdot c a - reBdot c b := by
+  rw [reBdot_eq, reBdot_eq, reBdot_eq, ← Finset.sum_sub_distrib]
+  exact Finset.sum_congr rfl (fun i _ => by simp [vsub]; ring)
+
+theorem vsub_zero {K : Type} [CommRing K] (v : CVec K n) : vsub v 0 = v := by
+  funext i; simp [vsub]
+
+theorem vsmul_one {K : Type} [CommRing K] (v : CVec K n) : vsmul 1 v = v := by
+  funext i; apply Cx.ext' <;> simp [vsmul]
+
+/-- the residual map `z ↦ z − P z` inherits JAX's contracts from `P` -/
+theorem residual_contracts (P JP GP : CVec ℝ n → CVec ℝ n) (x : CVec ℝ n)
+    (hJ : ∀ d, Tangent (fun t => P (along x d t)) (JP d))
+    (hG : ∀ c d, reBdot (GP c) d = reBdot c (JP d)) :
+    (∀ d, Tangent (fun t => vsub (along x d t) (P (along x d t))) (vsub d (JP d))) ∧
+    (∀ c d, reBdot (vsub c (GP c)) d = reBdot c (vsub d (JP d))) := by
+  refine ⟨fun d i => ?_, fun c d => ?_⟩
+  · exact ((tangent_along x d i).sub (hJ d i)).congr (fun _ => rfl) rfl
+  · rw [reBdot_vsub, reBdot_vsub_right, hG]
+
+/-! ### `linear_adjoint` of a real-linear function -/
+
+theorem reInner_eq_reBdot_right {K : Type} [CommRing K] (a x : CVec K n) : reInner a x = reBdot a (conjVec x) := by
+  rw [reInner_eq, reBdot_eq]
+  exact Finset.sum_congr rfl (fun i _ => by simp [conjVec])
+
+theorem linearAdjoint_real_adjoint (T : (CVec ℝ n → CVec ℝ m) → (CVec ℝ m → CVec ℝ n))
+    (f : CVec ℝ n → CVec ℝ m) (cp co : Bool) (hc : cp = true ∨ co = true)
+    (hT : ∀ y x, reBdot (T (conjFun f) y) x = reBdot y (conjFun f x)) (y : CVec ℝ m) (x : CVec ℝ n) :
+    reInner (linearAdjoint T cp co f y) x = reInner y (f x) := by
+  have : linearAdjoint T cp co f = T (conjFun f) := by
+    unfold linearAdjoint
+    rcases hc with h | h <;> simp [h]
+  rw [this, reInner_eq_reBdot_right, hT, reInner_eq_reBdot_right]
+  simp [conjFun, conjVec_conjVec]
+
+/-! ### `ProximalAverage.__call__` as an expression -/
+
+theorem proxAvgFn_eval {n : Nat} (l : List (ℝ × Fn ℝ n)) (acc : Fn ℝ n) (x : CVec ℝ n) :
+    (proxAvgFn l acc).eval x = acc.eval x + (l.map (fun p => p.1 * p.2.eval x)).sum := by
+  induction l generalizing acc with
+  | nil => simp [proxAvgFn]
+  | cons p rest ih =>
+    obtain ⟨a, f⟩ := p
+    simp only [proxAvgFn, ih, Fn.eval, List.map_cons, List.sum_cons]
+    ring
+
+theorem proxAvgFn_smooth {n : Nat} (l : List (ℝ × Fn ℝ n)) (acc : Fn ℝ n) (x : CVec ℝ n)
+    (ha : acc.Smooth x) (h : ∀ p ∈ l, p.2.Smooth x) : (proxAvgFn l acc).Smooth x := by
+  induction l generalizing acc with
+  | nil => exact ha
+  | cons p rest ih =>
+    obtain ⟨a, f⟩ := p
+    simp only [proxAvgFn]
+    apply ih
+    · exact ⟨ha, h (a, f) (by simp)⟩
+    · intro q hq; exact h q (by simp [hq])
+
 end Scico.Autograd
